@@ -222,6 +222,10 @@ func main() {
 		if err != nil {
 			log.Fatal(err)
 		}
+		// the stats reporter below works in whole seconds and divides by its interval
+		if config.Instrumentation.Graphite_interval < 1000 {
+			log.Fatalf("instrumentation graphite_interval must be at least 1000 (ms), got %d", config.Instrumentation.Graphite_interval)
+		}
 		go metrics.Graphite(metrics.DefaultRegistry, time.Duration(config.Instrumentation.Graphite_interval)*time.Millisecond, "", addr)
 
 		// we use a copy of metrictank's stats library for some extra process/memory related stats
